@@ -26,7 +26,7 @@ import probes
 import genprog
 
 PID = "C02"
-SCHEDULES = [("off", {"gc": 0}), ("t100", {"gc": 100}), ("t7", {"gc": 7}), ("t5", {"gc": 5}), ("t3", {"gc": 3}), ("t2", {"gc": 2}),
+SCHEDULES = [("off", {"gc": 0}), ("hostS", {"gc": 0, "collect_when_suspended": True}), ("t1S", {"gc": 1, "collect_when_suspended": True}), ("t100", {"gc": 100}), ("t7", {"gc": 7}), ("t5", {"gc": 5}), ("t3", {"gc": 3}), ("t2", {"gc": 2}),
              ("t1", {"gc": 1}), ("host1", {"gc": 0, "collect_every": 1}), ("host3", {"gc": 0, "collect_every": 3})]
 
 JUNK = "function junk(n: number) { const j: any[] = []; for (let k = 0; k < n; k++) { j.push({ junk: k, s: 'j' + k }); } return j.length; }\n"
@@ -102,6 +102,43 @@ DETACH = [
 ]
 
 
+# objects that only a register of a *calling* frame holds while a callee is suspended (S = the suspending call)
+HELD_PRELUDE = (c07.H + MK + SHOW +
+                "function pair(a: any, b: any) { return [a, b]; }\n"
+                "function sus(k: number): any { return order(k); }\n"
+                "function sus2(k: number): any { const o = mk(k + 50); return [o.id, sus(k)][1]; }\n"
+                "async function asus(k: number) { return await order(k); }\n"
+                "class K { constructor(public a: any, public b: any) {} }\n"
+                "function tg(s: any, ...xs: any[]) { return xs; }\n")
+HELD = [
+    ("call-arg", "pair(mk(1), S)"),
+    ("call-arg-late", "pair(S, mk(1))"),
+    ("array-literal", "[mk(1), S, mk(2)]"),
+    ("object-literal", "({ a: mk(1), b: S, c: mk(2) })"),
+    ("binary-operand", "mk(1).sub.v + S"),
+    ("template", "`${mk(1).tag}-${S}-${mk(2).tag}`"),
+    ("new-args", "new K(mk(1), S)"),
+    ("conditional", "mk(1).id ? [mk(2), S] : 0"),
+    ("nested-calls", "pair(mk(1), pair(mk(2), pair(mk(3), S)))"),
+    ("spread-then", "[...[mk(1), mk(2)], S]"),
+    ("tagged", "tg`a${mk(1)}b${S}c${mk(2)}`"),
+    ("method-receiver", "({ v: mk(5), m(x: any) { return [this.v, x]; } }).m(S)"),
+    ("string-concat", "mk(1).tag.concat(String(S))"),
+    ("two-suspensions", "pair(mk(1), pair(S, S))"),
+    ("in-callee-frame", "(function (o: any) { return pair(o, pair(mk(3), S)); })(mk(1))"),
+    ("closure-and-arg", "((o: any) => () => pair(o, S))(mk(1))()"),
+    ("default-param", "(function (a: any = mk(1), b: any = S) { return [a, b]; })()"),
+    ("destructuring-arg", "(function ({ p, q }: any) { return [p, q]; })({ p: mk(1), q: S })"),
+    ("logical", "mk(1) && S"),
+    ("comma-held", "pair((mk(1), mk(2)), S)"),
+    ("computed-key", "({ [mk(1).tag]: S, k: mk(2) })"),
+    ("array-method-arg", "[mk(1)].concat(mk(2), S as any)"),
+    ("optional-call", "pair?.(mk(1), S)"),
+    ("json-stringify-arg", "JSON.stringify([mk(1), S])"),
+]
+SUSPENDERS = [("order-in-callee", "sus(%d)"), ("order-two-frames-down", "sus2(%d)"), ("await-async-callee", "(await asus(%d))")]
+
+
 def detach_program(name, expr, variant):
     """variant: how the elements come to exist (a returned helper frame, JSON.parse, structured literal)"""
     if variant == 0:
@@ -133,7 +170,7 @@ def run(chk):
 
     if chk.replay:
         r = json.load(open(chk.replay))
-        reqs = [dict(sc, runs=[dict(r["run"], **({"collect_every": sc["collect_every"]} if "collect_every" in sc else {}))])
+        reqs = [dict(sc, runs=[dict(r["run"], **{k: sc[k] for k in ("collect_every", "collect_when_suspended") if k in sc})])
                 for _, sc in SCHEDULES]
         reqs = [{"gc": q["gc"], "runs": q["runs"]} for q in reqs]
         res, err = c11.run_seq(chk, reqs, "replay02")
@@ -161,17 +198,26 @@ def run(chk):
     for name, expr in DETACH:
         for variant in range(3):
             programs.append(("detach:%s:%d" % (name, variant), {"src": detach_program(name, expr, variant), "path": "/c02_d.ts"}))
+    for name, expr in HELD:
+        for sname, call in SUSPENDERS:
+            e, k = expr, 0
+            while _has_placeholder(e):
+                k += 1
+                e = _fill(e, call % (k * 7))
+            programs.append(("held:%s:%s" % (name, sname), {"src": HELD_PRELUDE + "const r: any = " + e + ";\nshow(r)", "path": "/c02_h.ts"}))
     n_gen = 40 if chk.tier == "quick" else 400
     for i in range(n_gen):
         g = genprog.Gen(rng, features={}, ts=True)
         programs.append(("generated:%d" % i, {"src": g.program(5, 3), "path": "/c02_g%d.ts" % i}))
-    scheds = SCHEDULES if chk.tier != "quick" else [s for s in SCHEDULES if s[0] in ("off", "t100", "t5", "t2", "t1", "host1")]
+    scheds = SCHEDULES if chk.tier != "quick" else [s for s in SCHEDULES if s[0] in ("off", "hostS", "t1S", "t100", "t5", "t2", "t1", "host1")]
     reqs = []
     for _, run in programs:
         for sn, sc in scheds:
             r = dict(run)
             if "collect_every" in sc:
                 r["collect_every"] = sc["collect_every"]
+            if sc.get("collect_when_suspended"):
+                r["collect_when_suspended"] = True
             reqs.append({"gc": sc["gc"], "runs": [r]})
     res, err = c11.run_seq(chk, reqs, "s02", chunk=60)
     stats = {"programs": len(programs), "runs": len(reqs), "schedules": [s for s, _ in scheds], "disagreements": 0, "stale_reports": 0,
@@ -221,6 +267,17 @@ def run(chk):
         "exhaustive": False, "stats": stats, "known_classes_hit": {k: v[:6] for k, v in known_hit.items()},
     })
     return chk.finish()
+
+
+import re as _re
+
+
+def _has_placeholder(e):
+    return _re.search(r"(?<![A-Za-z0-9_$.'])S(?![A-Za-z0-9_$'(])", e) is not None
+
+
+def _fill(e, call):
+    return _re.sub(r"(?<![A-Za-z0-9_$.'])S(?![A-Za-z0-9_$'(])", lambda m: call, e, count=1)
 
 
 KNOWN_PROGRAMS = {}
